@@ -31,6 +31,11 @@ EXTENDS Naturals, Sequences, FiniteSets, TLC
 
 Modes == {"strict", "permissive"}       \* encoding/asn1.AllowPermissiveParsing off / on
 Outcomes == {"ok", "err"}                \* the only outcomes the property allows
+(* "notrun" is not an outcome of the code: the harness logs it for a call it did not
+   make because the same entry point had already hung / killed the worker three times in
+   this run (each further one costs a watchdog period).  It is accepted here; the
+   driver insists that such an entry point ends the run with a reproduced violation. *)
+NotRun == {"notrun"}
 
 -----------------------------------------------------------------------------
 (* Node classes.  n: name, t: node type, path: selector steps (DER), reg: region
@@ -490,6 +495,10 @@ DerOpAllowed(k, nd, o) ==
   /\ (o[1] = "SelfIssue" => nd.n \in { "tbs.issuer" } /\ k \in { "cert", "tbs" })
   /\ (o[1] = "AlgMismatch" => nd.n \in { "tbs.sigalg", "sigalg", "basic.sigalg" })
 
+(* DropTail: the artifact ends at an ELEMENT BOUNDARY - everything after this element is
+   removed at every level, enclosing length words recomputed - so that a terminator / end
+   marker / the remaining list items are simply absent (SST without end marker, CRLSet
+   ending after an issuer block, TLS vectors ending after an item). *)
 InnerDerHows == { "empty", "short3", "truncated", "noise", "notder", "shortkey-selfissued", "nested" }
 
 BinOps(t) ==
@@ -501,14 +510,14 @@ BinOps(t) ==
     [] t = "count" -> { <<"CountHuge", "max">>, <<"CountHuge", "i32max">>, <<"CountHuge", "256m">>, <<"LenPlus", "1">>, <<"LenMinus", "1">>,
                         <<"ZeroInt", "-">>, <<"Truncate", "in-body">>, <<"Truncate", "at-end">> }
     [] t \in { "vec", "opaque", "vecder" } ->
-         { <<"Truncate", "in-len">>, <<"Truncate", "in-body">>, <<"Truncate", "at-end">>,
+         { <<"DropTail", "-">>, <<"Truncate", "in-len">>, <<"Truncate", "in-body">>, <<"Truncate", "at-end">>,
            <<"LenPlus", "1">>, <<"LenPlus", "200">>, <<"LenMinus", "1">>, <<"CountHuge", "max">>,
            <<"CountHuge", "i32max">>, <<"CountHuge", "256m">>, <<"EmptyBody", "-">>, <<"DropNode", "-">>, <<"DupNode", "-">>,
            <<"SwapSiblings", "-">>, <<"ByteNoise", "1">>, <<"ByteNoise", "3">>, <<"Grow", "64k">> }
          \cup (IF t = "opaque" THEN { <<"InnerLen", a>> : a \in { "1:+1", "1:-1", "1:max", "2:+1", "2:-1", "2:max",
                                                                "2:zero" } } ELSE {})
          \cup (IF t = "vecder" THEN { <<"InnerDER", a>> : a \in InnerDerHows } ELSE {})
-    [] t = "group" -> { <<"DropNode", "-">>, <<"DupNode", "-">>, <<"SwapSiblings", "-">>, <<"Truncate", "in-body">>,
+    [] t = "group" -> { <<"DropTail", "-">>, <<"Truncate", "at-end">>, <<"DropNode", "-">>, <<"DupNode", "-">>, <<"SwapSiblings", "-">>, <<"Truncate", "in-body">>,
                         <<"Repeat", "1000">> }
     [] t = "rest" -> { <<"Truncate", "in-body">>, <<"EmptyBody", "-">>, <<"ByteNoise", "3">>,
                        <<"InnerLen", "1:max">>, <<"InnerLen", "2:max">>, <<"InnerLen", "2:+1">>, <<"Grow", "64k">> }
@@ -532,7 +541,7 @@ Muts == TLCEval([ k \in Kinds |-> TLCEval(
 NodeOf(k, n) == CHOOSE nd \in Nodes[k] : nd.n = n
 
 Family(op) ==
-  CASE op \in { "Truncate", "CutLocal" } -> "truncate"
+  CASE op \in { "Truncate", "CutLocal", "DropTail" } -> "truncate"
     [] op \in { "LenPlus", "LenMinus", "LenHuge", "LenNonMinimal", "LenIndefinite", "InnerLen" } -> "length"
     [] op \in { "CountHuge", "Repeat", "Grow" } -> "count"
     [] op = "Retag" -> "tag"
@@ -560,6 +569,7 @@ ReducedArg(m) ==
                 "JsonNull", "SelfIssue" }
   \/ m.op = "Truncate" /\ m.a = "in-body"
   \/ m.op = "CutLocal" /\ m.a = "after-header"
+  \/ m.op = "DropTail"
   \/ m.op = "LenPlus" /\ m.a = "1"
   \/ m.op = "LenHuge" /\ m.a = "u32max"
   \/ m.op = "CountHuge" /\ m.a = "max"
